@@ -42,6 +42,8 @@ def gen_seq(rng):
             calls.append(('set', attr, rng.choice(val)))
         dy = rng.choice([0.03, -0.03, 0.0365, -0.0365, 0.1, -0.2, 0.0, 1.5]) if rng.random() < 0.7 else rng.choice([0.03, -0.03])
         r = rng.choice([None, None, 20.0, 3.0])
+        if dy and rng.random() < 0.15:
+            r = abs(dy) / 3            # a steep bend: 2 r < |dy| <= 4 r, each arc sweeps more than a quarter turn
         f = rng.choice([None, None, 10.0, 33.0])
         s = rng.choice([1, 1, 1, 0])
         il = rng.choice([None, 0.3, -0.4, 0.0])     # an explicit 0 is a value, not a missing argument
